@@ -62,6 +62,10 @@ def run_check(pid: str, tier: str, seed: int, only_defs=None, replay_mode=False)
 
     # ---- 2. corpus
     corpus = mod.build_corpus(tier, rng)
+    if getattr(mod, "HOSTILE_OK", None):
+        # look-alikes of prelude names the UNCHANGED generator is immune to for this check's derives (established by experiment,
+        # DESIGN.md 9.5): guards against a generated path that stops being absolute
+        corpus.add_hostile_twins(mod.HOSTILE_OK, per_name=(6 if tier == "thorough" else 2))
     if only_defs is not None:
         keep = set(only_defs)
         corpus.queries = [q for q in corpus.queries if q[1] in keep]
